@@ -415,6 +415,9 @@ class Agent(dbus.service.Object):
         ctr.fix_block_num()
         ctr.bundle.fill_fields()
 
+        # what an earlier attempt with this container decided does not count
+        ctr.sender = None
+
         for step in self._tx_chain:
             self._logger.debug('Performing TX step %5.1f: %s', step.order, step.name)
             try:
